@@ -266,6 +266,7 @@ fn exec_scaling(ctx: &mut Ctx, spec: &RunSpec, idx: u64) -> RunResult {
     let scaled = |num: u32, den: u32| -> RunSpec {
         let mut s = spec.clone();
         s.note = format!("scaled x{}/{}", num, den);
+        let mut items = 0u64;
         for f in s.stored_faults.iter_mut() {
             if let Some(Edit::Repeat { count, start, step, .. }) = f.edit.as_mut() {
                 if *count >= 8000 {
@@ -275,6 +276,17 @@ fn exec_scaling(ctx: &mut Ctx, spec: &RunSpec, idx: u64) -> RunResult {
                         *start = n as i64;
                     }
                     *count = n;
+                    items = n as u64;
+                }
+            }
+        }
+        // fields that depend on the length of the flood (`base=<value> per=<bytes per item>` in
+        // the description: sheet positions behind a flood in the workbook globals)
+        for f in s.stored_faults.iter_mut() {
+            let field = |key: &str| f.why.split(key).nth(1).and_then(|t| t.split(' ').next()).and_then(|t| t.parse::<u64>().ok());
+            if let (Some(base), Some(per)) = (field(" base="), field(" per=")) {
+                if let Some(Edit::Set { bytes, .. }) = f.edit.as_mut() {
+                    *bytes = ((base + items * per) as u32).to_le_bytes().to_vec();
                 }
             }
         }
@@ -423,7 +435,17 @@ pub fn exec_spec(ctx: &mut Ctx, spec: &RunSpec, idx: u64) -> RunResult {
         consumed,
         kinds,
         outcome: format!("{}:{}", spec.entry.name(), open_class),
-        probes: vec![],
+        // an amplified input that the file's own reader refuses exercises less than it claims:
+        // which floods are refused is part of the evidence (round 5 found every xls flood refused)
+        probes: if generated > 100_000 && spec.entry == Entry::own(fx.format) && spec.inner.is_none() {
+            let kind = spec.stored_faults.iter().rev().find(|f| matches!(&f.edit, Some(Edit::Repeat { .. }))).map(|f| erase_decimals(&f.why)).unwrap_or_default();
+            match &ex.open {
+                Outcome::Ok(_) => vec!["amplified_input_opened".to_string()],
+                _ => vec![format!("amplified_input_refused:{}:{}", spec.file, crate::wb::clip(&kind, 90))],
+            }
+        } else {
+            vec![]
+        },
         spec: if want_sample { Some(spec.clone()) } else { None },
         sample: if want_sample { Some(sample_json(spec, &ex)) } else { None },
         violations,
